@@ -1885,8 +1885,12 @@ class ContractionTree:
         tree.already_optimized.setdefault(minimize, set())
         already_optimized = tree.already_optimized[minimize]
 
+        if (select == "random") or (subtree_search == "random"):
+            # n.b. also used to build random subtrees
+            seed = get_rng(seed)
+
         if select == "random":
-            rng = get_rng(seed)
+            rng = seed
         else:
             if select == "max":
                 i = 0
@@ -1915,7 +1919,10 @@ class ContractionTree:
 
                 # get a subtree to possibly reconfigure
                 sub_leaves, sub_branches = tree.get_subtree(
-                    sub_root, size=subtree_size, search=subtree_search
+                    sub_root,
+                    size=subtree_size,
+                    search=subtree_search,
+                    seed=seed,
                 )
 
                 sub_leaves = frozenset(sub_leaves)
@@ -2083,6 +2090,7 @@ class ContractionTree:
                         "select": rng.choice(subtree_select),
                         "weight_pwr": rng.choice(subtree_weight_pwr),
                         "weight_what": rng.choice(subtree_weight_what),
+                        "seed": rng.randrange(2**32),
                     }
                     for _ in range(num_trees)
                 ]
@@ -4035,7 +4043,8 @@ class PartitionTreeBuilder:
         **partition_opts,
     ):
         tree = ContractionTree(inputs, output, size_dict, track_childless=True)
-        rand_size_dict = jitter_dict(size_dict, random_strength, seed)
+        rng = get_rng(seed)
+        rand_size_dict = jitter_dict(size_dict, random_strength, rng)
         leaves = tuple(tree.gen_leaves())
         for node in leaves:
             tree._add_node(node, check=check)
@@ -4050,6 +4059,7 @@ class PartitionTreeBuilder:
                 output,
                 rand_size_dict,
                 parts=parts,
+                seed=rng,
                 **partition_opts,
             )
             leaves = [
